@@ -102,6 +102,10 @@ fn model_change_set(live: &mut BTreeMap<String, RuleSpec>, added: &[RuleSpec], u
     }
 }
 
+pub fn model_change_set_pub(live: &mut BTreeMap<String, RuleSpec>, added: &[RuleSpec], updated: &[RuleSpec], deleted: &[String]) {
+    model_change_set(live, added, updated, deleted)
+}
+
 /// true when applying this change-set keeps live ids unique (the property's precondition)
 fn change_set_respects_uniqueness(live: &BTreeMap<String, RuleSpec>, added: &[RuleSpec], updated: &[RuleSpec], deleted: &[String]) -> bool {
     let mut seen: HashSet<&str> = HashSet::new();
